@@ -9,6 +9,9 @@ use std::collections::BTreeMap;
 pub enum Node {
     Dir,
     File(Vec<u8>),
+    /// symbolic link with its target as stored (absolute, or relative to the directory that
+    /// holds the link); every operation of the seam follows links, as the real calls do
+    Link(String),
 }
 
 /// Which public entry point of `oq3_semantics::syntax_to_semantics` is called.
@@ -199,6 +202,15 @@ impl World {
         self.nodes.insert(path.to_string(), Node::File(bytes));
     }
 
+    pub fn put_link(&mut self, path: &str, target: &str) {
+        if let Some(i) = path.rfind('/') {
+            if i > 0 {
+                self.mkdir_p(&path[..i]);
+            }
+        }
+        self.nodes.insert(path.to_string(), Node::Link(target.to_string()));
+    }
+
     pub fn entry_text(&self) -> Option<&str> {
         match &self.entry {
             Entry::StringSearch { text } | Entry::StringPlain { text } => Some(text),
@@ -316,12 +328,16 @@ impl Fault {
 impl World {
     pub fn to_json(&self) -> Value {
         let mut files = Map::new();
+        let mut links = Map::new();
         let mut dirs = vec![];
         for (p, n) in &self.nodes {
             match n {
                 Node::Dir => dirs.push(Value::String(p.clone())),
                 Node::File(b) => {
                     files.insert(p.clone(), bytes_to_json(b));
+                }
+                Node::Link(t) => {
+                    links.insert(p.clone(), Value::String(t.clone()));
                 }
             }
         }
@@ -360,6 +376,7 @@ impl World {
             "entry": entry,
             "dirs": dirs,
             "files": files,
+            "symlinks": links,
             "faults": self.faults.iter().map(|f| f.to_json()).collect::<Vec<_>>(),
             "seam_call_budget": self.budget,
             "damage": damage,
@@ -408,6 +425,11 @@ impl World {
         if let Some(Value::Object(files)) = v.get("files") {
             for (p, c) in files {
                 w.put_file(p, bytes_from_json(c)?);
+            }
+        }
+        if let Some(Value::Object(links)) = v.get("symlinks") {
+            for (p, t) in links {
+                w.put_link(p, t.as_str().ok_or("symlink target")?);
             }
         }
         if let Some(Value::Array(fs)) = v.get("faults") {
